@@ -28,6 +28,17 @@ def extend_datetime(d: Union[date, time, datetime], cls: Union[Type[date], Type[
     return cls(*args(d))
 
 
+def _parse(s: str, default: datetime) -> datetime:
+    """
+    dateutil.parser.parse that reports every unparsable string as ValueError
+    (a long digit string makes dateutil raise OverflowError, which is not a ValueError)
+    """
+    try:
+        return dateutil.parser.parse(s, default=default)
+    except OverflowError as e:
+        raise ValueError(f"'{s}' is not valid date or time: {e}")
+
+
 _check_values_date = (
     datetime(2018, 1, 2, 0, 4, 5, 678, tzinfo=None),
     datetime(2018, 1, 2, 9, 4, 5, 678, tzinfo=None)
@@ -43,8 +54,8 @@ def is_date(s: str) -> Optional[date]:
     """
     # dateutil.parser.parse replaces missing parts of datetime with values from default value
     # so if there is hour part in given string then d1 and d2 would be equal and string is not pure date
-    d1 = dateutil.parser.parse(s, default=_check_values_date[0])
-    d2 = dateutil.parser.parse(s, default=_check_values_date[1])
+    d1 = _parse(s, default=_check_values_date[0])
+    d2 = _parse(s, default=_check_values_date[1])
     return None if d1 == d2 else d1.date()
 
 
@@ -61,8 +72,8 @@ def is_time(s: str) -> Optional[time]:
     :param s: string
     :return: time or None
     """
-    d1 = dateutil.parser.parse(s, default=_check_values_time[0])
-    d2 = dateutil.parser.parse(s, default=_check_values_time[1])
+    d1 = _parse(s, default=_check_values_time[0])
+    d2 = _parse(s, default=_check_values_time[1])
     return None if d1 == d2 else d1.time()
 
 
